@@ -3,7 +3,7 @@ from .. import alnmon as M
 
 ID = "C01"
 LEVEL = "exploration"
-ENGINES = ['alnmon', 'sanrun']
+ENGINES = ['alnmon', 'climon', 'sanrun']
 TECHNIQUE = 'reference-model monitor (edit distance / placement oracle) on every match_to() result + ASan/UBSan run'
 LEVEL_TEXT = "Every match returned by the real match_to() on ~10^5 (quick) to ~10^7 (thorough, plus a small exhaustive scope) generated (configuration, read) pairs is re-derived by an independent oracle; 'held' means no reported match on the executions observed violated bounds, placement, overlap, exact error count or tolerance. Exploration is the right level: the input space is unbounded and only executions are observed."
 LEVEL_NOTE = "Trusted base: verif/refmodel.py (wildcard relation, unit-cost edit distance, placement table), the workload generator's diversity, CPython. Effective error rates >= 1 are outside the domain. Score is not judged."
@@ -79,6 +79,9 @@ def run_shard(ctx):
             one(ctx, cfg, ad, read)
             if asan:
                 ctx.san_check(lambda: M.case_dict(cfg, read))
+    if not asan:
+        for k in range(ctx.scale(10, 200)):
+            cli_case(ctx, ctx.shard * 100000 + k)
     if ctx.tier == "thorough" and not asan:
         reads = list(M.exhaustive_reads(6))
         for cfg in M.exhaustive_configs(ctx.shard, ctx.nshards):
@@ -90,7 +93,92 @@ def run_shard(ctx):
                 one(ctx, cfg, ad, read)
 
 
+SPEC = dict(back="{s}", front="{s}", prefix="^{s}", suffix="{s}$", nfront="X{s}", nback="{s}X", anywhere="{s}", rightmost="{s};rightmost")
+FLAG = dict(back="-a", front="-g", prefix="-g", suffix="-a", nfront="-g", nback="-a", anywhere="-b", rightmost="-g")
+
+
+def cli_case(ctx, k):
+    """Columns 2-7 of --info-file for single-adapter command-line runs, judged by the same oracle (the adapter interval
+    is not in the file: some interval that the type admits must explain the row)."""
+    import os
+    import shutil
+    from .. import climon, fastx, refmodel as R
+
+    rng = ctx.rng("c01cli", k)
+    cfg = M.gen_config(rng, allow_force_anywhere=False)
+    cfg["seq"] = cfg["seq"].upper().replace("U", "T")
+    if cfg["max_errors"] >= 1:
+        cfg["max_errors"] = 0.2
+    if M.build(cfg) is None:
+        return
+    aseq = R.normalize_adapter(cfg["seq"])
+    d = os.path.join(ctx.scratch, f"cli{k}")
+    os.makedirs(d, exist_ok=True)
+    try:
+        recs = []
+        for i in range(30):
+            s = M.gen_read(rng, cfg, aseq)
+            recs.append((f"r{i}", s, "I" * len(s)))
+        inputs = climon.write_inputs(d, recs)
+        argv = [FLAG[cfg["type"]], SPEC[cfg["type"]].format(s=cfg["seq"]), "-e", repr(cfg["max_errors"]), "-O", str(cfg["min_overlap"]),
+                "--info-file", "info.tsv", "-o", "out.fq"]
+        if not cfg["aw"]:
+            argv.append("-N")
+        if cfg["rw"]:
+            argv.append("--match-read-wildcards")
+        if not cfg["indels"]:
+            argv.append("--no-indels")
+        run = climon.run(d, argv + inputs, trace=False)
+        ctx.count("cli_runs")
+        if run.rc != 0:
+            ctx.count("cli_runs_failed")
+            return
+        case = climon.case_record(argv + inputs, d, inputs)
+        case["cli_k"] = k
+        eq = R.make_eq(cfg["aw"] and not set(aseq) <= set("ACGT"), cfg["rw"])
+        aw = cfg["aw"] and not set(aseq) <= set("ACGT")
+        m = len(aseq)
+        want = m if cfg["type"] in ("prefix", "suffix") else min(cfg["min_overlap"], m)
+        reads = {fastx.rid(r[0]): r[1] for r in recs}
+        with open(os.path.join(d, "info.tsv")) as f:
+            for line in f:
+                col = line.rstrip("\n").split("\t")
+                if len(col) < 8 or col[1] == "-1":
+                    ctx.case(None)
+                    continue
+                read = reads[fastx.rid(col[0])]
+                err, r0, r1 = int(col[1]), int(col[2]), int(col[3])
+                ctx.case(("cli", str(argv), read))
+                ctx.count("cli_match_rows")
+                n = len(read)
+                if not (0 <= r0 <= r1 <= n) or col[4] + col[5] + col[6] != read or col[5] != read[r0:r1]:
+                    ctx.violation("bounds", f"info row {col[:7]} does not lie inside read {read!r}; argv={argv}", case)
+                    continue
+                explained = False
+                for a0 in range(0, m + 1):
+                    for a1 in range(a0, m + 1):
+                        if a1 - a0 < want or not R.placement_ok(cfg["type"], m, n, a0, a1, r0, r1):
+                            continue
+                        if not cfg["indels"] and (a1 - a0) != (r1 - r0):
+                            continue
+                        dist = R.edit_distance(aseq[a0:a1], read[r0:r1], eq) if cfg["indels"] else R.hamming(aseq[a0:a1], read[r0:r1], eq)
+                        if dist == err and err <= float(cfg["max_errors"]) * R.effective_len(aseq, a0, a1, aw):
+                            explained = True
+                            break
+                    if explained:
+                        break
+                if not explained:
+                    ctx.violation("cli-row-unexplained", f"info row errors={err} start={r0} end={r1} on read {read!r}: no adapter interval of {aseq} that the "
+                                  f"type {cfg['type']} admits has this distance within tolerance; argv={argv}", case, klass=cfg["type"])
+    finally:
+        shutil.rmtree(d, ignore_errors=True)
+
+
 def replay(ctx, case):
+    if case.get("cli"):
+        ctx.shard = case["cli_k"] // 100000
+        cli_case(ctx, case["cli_k"])
+        return
     cfg = {k: v for k, v in case.items() if k != "read"}
     ad = M.build(cfg)
     if ad is None:
